@@ -3,6 +3,7 @@ mod gen;
 mod hintde;
 mod proto;
 mod streams;
+mod svcap;
 mod svser;
 
 use std::io::{BufRead, Write};
@@ -35,6 +36,12 @@ fn main() {
 			}
 		}
 		Some("dump-constants") => streams::dump_constants(),
+		Some("gen-derive") => {
+			let seed: u64 = args.get(2).expect(usage).parse().expect("seed");
+			let n: usize = args.get(3).expect(usage).parse().expect("n");
+			let path = args.get(4).expect(usage);
+			std::fs::write(path, streams::derive::generate_source(seed, n)).expect("write generated source");
+		}
 		_ => {
 			eprintln!("{usage}");
 			std::process::exit(2);
